@@ -32,6 +32,7 @@ def main():
         os.environ["VERIF_TIER"] = a.tier
     tier = core.tier()
     core.bind()
+    core.scratch_root()  # created before workers are forked, so that they inherit it
     os.chdir(core.VERIF_DIR)
     prop = a.prop.upper()
     mod = importlib.import_module("checks." + prop.lower())
@@ -54,4 +55,9 @@ def main():
 
 
 if __name__ == "__main__":
-    sys.exit(main())
+    os.environ.pop("VF_SCRATCH", None)  # every check process owns (and removes) its own scratch directory
+    try:
+        rc = main()
+    finally:
+        core.remove_scratch()
+    sys.exit(rc)
